@@ -187,9 +187,38 @@ fn prepare_child(sc: &Scenario, root: &Path, wfd: i32) {
             libc::dup2(devnull, 2);
         }
     }
-    if std::env::set_current_dir(root).is_err() {
+    // knob "short_docroot": the scratch base becomes the root of the file system, so that the served
+    // directory's absolute path is what containers have (/root, /o1/o2/root) instead of a long
+    // scratch path that no request will ever contain. Not fatal when the process may not do it.
+    let mut root = root.to_path_buf();
+    if sc.yields.iter().any(|y| y == "short_docroot") && sc.engine != Engine::Pool && !sc.tree.root.is_empty() {
+        let depth = sc.tree.root.split('/').filter(|x| !x.is_empty()).count();
+        let mut base = Some(root.clone());
+        for _ in 0..depth {
+            base = base.and_then(|b| b.parent().map(|p| p.to_path_buf()));
+        }
+        if let Some(base) = base {
+            if let Ok(c) = std::ffi::CString::new(base.as_os_str().as_encoded_bytes()) {
+                if unsafe { libc::chroot(c.as_ptr()) } == 0 {
+                    root = Path::new("/").join(&sc.tree.root);
+                }
+            }
+        }
+    }
+    if std::env::set_current_dir(&root).is_err() {
         write_all_fd(wfd, b"chdir failed");
         unsafe { libc::_exit(3) };
+    }
+    // knob "other_user": the server runs as a user who owns none of the files it serves (they stay
+    // readable for everybody). Trees with private modes keep the owner.
+    if sc.yields.iter().any(|y| y == "other_user") && sc.tree.meta_mode == 0 && sc.owner_ops.is_empty() && sc.engine != Engine::Pool {
+        unsafe {
+            if libc::geteuid() == 0 {
+                libc::setgroups(0, std::ptr::null());
+                libc::setresgid(65534, 65534, 65534);
+                libc::setresuid(65534, 65534, 65534);
+            }
+        }
     }
     let keys: Vec<String> = std::env::vars().map(|(k, _)| k).filter(|k| k.starts_with("RWS_CONFIG_")).collect();
     for k in keys {
